@@ -40,7 +40,7 @@ def RULE(tier):
         "regions {None; every offset 0..2 per axis inside a target 2 larger; step-2 regions; negative-start / negative-step regions (refusal expected)} x "
         "lock in {True, False, threading.Lock, SerializableLock} x {compute, compute=False then compute, return_stored, return_stored+compute=False} x "
         "{sync, real threads, newest-first controlled executor}; Delayed targets. store, two sources in one call: all chunkings of lengths 1.." + str(N2MAX[tier]) + " x "
-        "{two targets, two targets with regions, one shared target with separated / abutting regions, one region tuple for both} x lock x mode x "
+        "{two targets, two targets with regions, one shared target with separated / abutting regions, one region tuple for both; the SAME source object twice into two targets / one shared target} x lock x mode x "
         "{sync + FIFO and newest-first completion + every completion order with <= 1 deviation" + ("" if tier == "thorough" else " (quick: only for lock=True)") + "}. Oracle: target == -1-filled reference with reference[region] = source "
         "(cells outside the region untouched), nothing written before the deferred compute, returned arrays equal the source with the source's chunks. "
         "to_npy_stack/from_npy_stack: every chunking x every axis x mmap_mode x dtype: values, dtype and the chunks along the stacking axis are reproduced. "
@@ -127,7 +127,9 @@ def cases_of(shard, tier):
         i = 0
         for ch1 in enums.compositions(n1):
             for ch2 in enums.compositions(n2):
-                for layout in layouts:
+                # the SAME source object stored twice in one call (targets of identical initial content are still two sinks)
+                twin = ["twin_two", "twin_two_regions", "twin_same"] if (n1 == n2 and ch1 == ch2) else []
+                for layout in layouts + twin:
                     for lock in LOCKS:
                         for mode in MODES:
                             i += 1
@@ -281,6 +283,8 @@ def run_store(case, ctx):
         xs = [x1, x2]
         sources = [da.from_array(x1, chunks=(ch1,)), da.from_array(x2, chunks=(ch2,))]
         same_target, regions_arg, tkind = False, "list", "np"
+        if layout.startswith("twin_"):
+            xs, sources, layout = [x1, x1], [sources[0], sources[0]], layout[5:]
         if layout == "two":
             regions, tshapes = [None, None], [(n1,), (n2,)]
         elif layout == "two_regions":
